@@ -356,6 +356,8 @@ func init() {
 		c.R.Trusted = reflTrusted
 		mcReflectCheck(c, func(v ReflVerdict) bool { return !strings.HasPrefix(v.What, "nil:") })
 		reflectTraceRun(c, c.pick(4, 40), c.pick(60, 200), func(what, op string) bool { return true })
+		// the oneof discipline for histories of ANY length (inductive invariant, Apalache)
+		oneofInductive(c)
 	}})
 	register(&Check{ID: "C09", Level: "model_checking", Run: func(c *Ctx) {
 		c.R.Trusted = reflTrusted
